@@ -451,6 +451,7 @@ func generateGhost(p *packages.Package, funcs map[string]*ssa.Function, cs *Cont
 			}
 		}
 	}
+	curFn := ""
 	emit := func(c *Clause, fnName string, base []ghostParam, retType string, target *ssa.Function, allowLocals bool) {
 		c.FnName = fnName
 		ps := append([]ghostParam{}, base...)
@@ -506,7 +507,16 @@ func generateGhost(p *packages.Package, funcs map[string]*ssa.Function, cs *Cont
 					continue
 				}
 			}
-			undec = append(undec, fmt.Sprintf("%s: identifier %q in clause does not resolve against the current tree", c.Line, id))
+			msg := fmt.Sprintf("%s: identifier %q in clause does not resolve against the current tree", c.Line, id)
+			if curFn != "" {
+				// only this function's contract is unusable; the rest of the package is still checked
+				if cs.Broken == nil {
+					cs.Broken = map[string][]string{}
+				}
+				cs.Broken[curFn] = append(cs.Broken[curFn], msg)
+			} else {
+				undec = append(undec, msg)
+			}
 			c.FnName = ""
 			return
 		}
@@ -581,7 +591,9 @@ func generateGhost(p *packages.Package, funcs map[string]*ssa.Function, cs *Cont
 			// trusted contract on an external function: parameters must be given by shape "params: a T, b U -> r V"
 			continue
 		}
+		curFn = name
 		process(fc, target, targetParams(tp, target), resultParams(tp, target), mangle(name))
+		curFn = ""
 	}
 	for _, name := range ftNames {
 		fc := cs.FnTypes[name]
